@@ -281,6 +281,7 @@ func runC02(c *kit.Ctx) {
 
 	// ---- R5 ---------------------------------------------------------------
 	c.StartRule("R5", "region-exception fan-out", 2)
+	clearedCallSlotsAreSkipped(c)
 	{
 		// same index for ra[i] and m.regions[i]; same map key r
 		var raStore, regStore *ssa.Store
